@@ -323,6 +323,45 @@ func runC01(r *rt.Run) {
 		}
 	})
 
+	// holes (and exteriors) given as geometry.Rect values: every lattice
+	// rectangle inside each curated exterior as a Rect hole, and every lattice
+	// rectangle as a Rect exterior with a triangle hole; at geometry and object level
+	{
+		w := r.Worker()
+		cnt := 0
+		for _, name := range curatedNames {
+			ext := curatedExteriors[name]
+			for x0 := int64(0); x0 <= 4; x0++ {
+				for x1 := x0; x1 <= 4; x1++ {
+					for y0 := int64(0); y0 <= 4; y0++ {
+						for y1 := y0; y1 <= 4; y1++ {
+							hole := P2(x0, y0, x1, y0, x1, y1, x0, y1, x0, y0)
+							s := &exact.Shape{Kind: exact.KPoly, Ext: ext, Holes: [][]exact.P{hole}}
+							g := geometry.NewPoly(ident.pts(ext), nil, idxNone)
+							g.Holes = []geometry.Ring{geometry.Rect{Min: ident.pt(hole[0]), Max: ident.pt(hole[2])}}
+							obj := geojson.NewPolygon(g)
+							cnt++
+							w.States++
+							for j, p := range H5 {
+								want := s.Member(p.R())
+								c, i := memberGeom(g, fH5[j])
+								oc := obj.Contains(geojson.NewPoint(fH5[j]))
+								w.Evals += 3
+								if c != want || i != want || oc != want {
+									j := j
+									w.Fail("member-rect-hole", func() (rt.Case, string, string) {
+										return rt.Case{Kind: "member", Op: "recthole", A: descShape(s, ident), B: ptG(fH5[j])}, fmt.Sprint(want), fmt.Sprintf("contains=%v intersects=%v object=%v", c, i, oc)
+									})
+								}
+							}
+						}
+					}
+				}
+			}
+		}
+		r.Bounds["rect_hole_polygons"] = cnt
+		w.Flush()
+	}
 	// scaled / translated copies of the depth-4 ring tree (float exactness at 2^20)
 	xfs := []Xf{{Scale: 131072}, {Scale: 0.5, Tx: 1048570, Ty: -1048570}, {Scale: 1.0 / 1024, Tx: 0, Ty: 0}, {Scale: 1.0 / (1 << 30)}, farFineXf}
 	for _, t := range xfs {
@@ -366,6 +405,16 @@ func evalC01(c *rt.Case) (bool, string, string, error) {
 	want := es.Member(ep.Pt.R())
 	fp := g2(c.B.P)[0]
 	cfg := cfgByName(c.Cfg)
+	if c.Op == "recthole" {
+		if es.Kind != exact.KPoly || len(es.Holes) != 1 || len(es.Holes[0]) < 3 {
+			return false, "", "", fmt.Errorf("malformed case")
+		}
+		g := geometry.NewPoly(t.pts(es.Ext), nil, idxNone)
+		g.Holes = []geometry.Ring{geometry.Rect{Min: t.pt(es.Holes[0][0]), Max: t.pt(es.Holes[0][2])}}
+		ct, it := memberGeom(g, fp)
+		oc := geojson.NewPolygon(g).Contains(geojson.NewPoint(fp))
+		return ct != want || it != want || oc != want, fmt.Sprint(want), fmt.Sprintf("contains=%v intersects=%v object=%v", ct, it, oc), nil
+	}
 	if strings.HasPrefix(c.Op, "moved") {
 		var di int
 		fmt.Sscanf(c.Op, "moved%d", &di)
